@@ -410,7 +410,9 @@ def batch_frames(k):
             f = frame_from([cols[0], cols[3], cols[2]], ((2, False), (1, True)), index=[f'r{j}' for j in range(n)], column_labels=['p', 'r', 'q'], name=MEMBERS[m])
             out.append(f[['p', 'q', 'r']].rename(MEMBERS[m]) if False else f)
             continue
-        out.append(sf.Frame.from_dict(vals, index=[f'r{j}' for j in range(n)], name=MEMBERS[m]))
+        f = sf.Frame.from_dict(vals, index=[f'r{j}' for j in range(n)], name=MEMBERS[m])
+        # the third member is a grow-only Frame (a Frame subclass: results that keep the member's class are containers all the same)
+        out.append(f.to_frame_go() if m == 2 else f)
     return out
 
 
